@@ -18,6 +18,7 @@ finding KF-C20-1, and initialise-then-publish, its repair); nothing here depends
 its source sites and the flag `publishes_before_init` come from the translator's side file on every run."""
 import collections
 import json
+import os
 import random
 import time
 
@@ -434,6 +435,8 @@ def run(ctx, model=True):
     dist['interrupted_first_initialisation'] = info
     ev += total
     dist['t_interrupted_s'] = round(time.time() - t3, 1)
+    res['failures'] += interleave_failures()[:1]
+    dist['interleaved_stream_pairs'] = len(INTERLEAVE_TEXTS)
     if model:
         t4 = time.time()
         dist['selftests_on_patched_copies'] = stage_selftest(ctx, res)
@@ -508,7 +511,50 @@ def _check_schedule(n, sched):
     return fl[0] if fl else None
 
 
+INTERLEAVE_TEXTS = [
+    ('select 1; select a from t where x = 2; insert into t values (1); select 4',
+     'update t set a = 1; delete from t; select (1), f(2) from u; select 9; select 10'),
+    ("select 'a;b'; select 2 -- c\n; select 3", 'create table t (a int); select "x;y" from t; select 5'),
+]
+
+
+def interleave_failures():
+    """two lazily consumed parsestream() generators advanced alternately, with a complete format() call in between: each
+    yields exactly the statements parse() gives for its text (in a fresh worker process)"""
+    code = (
+        'import sys, json, itertools\n'
+        'import sqlparse\n'
+        'pairs = json.load(sys.stdin)\n'
+        'bad = []\n'
+        'for t1, t2 in pairs:\n'
+        '    try:\n'
+        '        g1, g2 = sqlparse.parsestream(t1), sqlparse.parsestream(t2)\n'
+        '        o1, o2 = [], []\n'
+        '        for a, b in itertools.zip_longest(g1, g2):\n'
+        '            if a is not None: o1.append(str(a))\n'
+        '            if b is not None: o2.append(str(b))\n'
+        "            sqlparse.format('select x from y', reindent=True)\n"
+        '        w1, w2 = [str(s) for s in sqlparse.parse(t1)], [str(s) for s in sqlparse.parse(t2)]\n'
+        '        if o1 != w1 or o2 != w2:\n'
+        "            bad.append({'texts': [t1, t2], 'observed': 'interleaved parsestream yields %r / %r, parse gives %r / %r' % (o1[:4], o2[:4], w1[:4], w2[:4])})\n"
+        '    except Exception as e:\n'
+        "        bad.append({'texts': [t1, t2], 'observed': 'exception ' + type(e).__name__ + ': ' + str(e)[:120]})\n"
+        'json.dump(bad, sys.stdout)\n')
+    import subprocess
+    env = dict(os.environ, PYTHONPATH=vlib.REPO, PYTHONHASHSEED='0')
+    try:
+        p = subprocess.run(['/venv/bin/python', '-c', code], input=json.dumps(INTERLEAVE_TEXTS), stdout=subprocess.PIPE,
+                           stderr=subprocess.PIPE, text=True, timeout=120, env=env)
+        bad = json.loads(p.stdout) if p.returncode == 0 else [{'texts': list(INTERLEAVE_TEXTS[0]), 'observed': 'worker failed: ' + p.stderr[-300:]}]
+    except subprocess.TimeoutExpired:
+        bad = [{'texts': list(INTERLEAVE_TEXTS[0]), 'observed': 'the interleaved generators did not finish within 120 s'}]
+    return [dict(b, kind='interleaved_streams') for b in bad]
+
+
 def oracle(f):
+    if f.get('kind') == 'interleaved_streams':
+        g = [x for x in interleave_failures() if x['texts'] == f.get('texts')]
+        return g[0] if g else None
     if f.get('kind') == 'schedule':
         return _check_schedule(f['nthreads'], f['schedule'])
     if f.get('kind') == 'history':
